@@ -25,11 +25,16 @@ Tie: `vparse` — the model on the kinds of the real tokenizer's tokens against 
 and structure read off its seq): exact on derivations of the grammar under random layouts, and `model accepts ⇒
 same value` on mutated token sequences (outside the grammar the implementation is more lenient in places; the
 model rejects).
-Partial: selectors (C16), namespaces (C15), media queries, at-rule preludes, validate-independence and the
+Media queries and media lists: the second part of this file (the combinator engine itself, total; the accepted
+languages, exactly).
+Partial: selectors (C16), namespaces (C15), at-rule preludes, validate-independence and the
 assembly of the object model from these parts are decided by the oracle on the implementation (sheets from
 the grammar G, expected model by construction, 3 layouts x parseComments, validate on/off).
 -/
 import CssVerif.Proofs.Value
+import CssVerif.Proofs.ProdParser
+import CssVerif.Proofs.PPTotal
+import CssVerif.Proofs.PPList
 import CssVerif.Props.C04
 namespace CssVerif.C02
 open CssVerif.Value
@@ -59,5 +64,102 @@ example : pvalue [.ident, .ws, .comma, .ws, .func, .ws, .dim, .comment, .ws, .co
 /-- what the grammar excludes is rejected: no white space before `+` in calc(), a doubled comma -/
 example : pvalue [.calcFunc, .dim, .plus, .ws, .dim, .rparen] = none ∧ pvalue [.ident, .comma, .comma, .ident] = none :=
   ⟨rfl, rfl⟩
+
+/-! ## The combinator engine (`prodparser.py`) and media queries
+
+Model: `Model/ProdParser.lean` — `Prod` / `Sequence` / `Choice` with the `matches` / `nextProd` protocol (counters as
+explicit frame state), the token loop of `ProdParser.parse` (savedTokens, the global tokenizer's push-back list,
+COMMENT / S / INVALID / EOF, the descent over the production stack, `stop` `stopAndKeep` `stopIfNoMoreMatch`
+`nextSor` (`_SorFilter`) `mayEnd`, nested `toSeq` callables as a hook) and the end-of-input walk;
+`Model/MediaQuery.lean` — the grammars of `MediaQuery._setMediaText` / `MediaList._setMediaText`, Prod by Prod.
+Tie: `pp` / `ppshow` (harness/props/c02pp.py): the real classes on the same grammars, the real MediaQuery / MediaList.
+
+* `engine_total` — for every grammar without empty or zero-round Sequences in which no unbounded Sequence is
+  all-optional (except ones only a COMMENT could enter), every hook that terminates and does not lengthen the input,
+  every configuration and token list: the fuel the entry point gives (2·size+2 per descent, one per token) is
+  enough, no Sequence spins, no IndexError; `engine_progress`: such a parse never leaves more than it was given, and
+  one token less when the grammar has no `stopAndKeep`.  `media_query_total`, `media_list_total`: the two media
+  grammars satisfy the hypotheses (the all-optional `Sequence(comment){0,∞}` of MediaList is never entered).
+  `spin_is_real`: on `Sequence(Prod(optional)){0,∞}` the model reports `spin` (the real engine does not return).
+* `media_query_language` — for token lists of any length without an EOF token, `MediaQuery(text)` is well-formed iff
+  the tokens (S and COMMENT removed) are in `MQ.accepts`, a recogniser written from the docstring grammar plus one
+  rule: after `[only|not]? <known media type>` a token that does not fit inside an `and ( … )` part ends the
+  query quietly (`print and ;` is "well-formed").  `media_query_documented` / `media_query_beyond_documented`
+  compare with the documented grammar: every documented query is accepted unless `only`/`not` is followed by
+  something other than a known media type; whatever else is accepted begins with a known media type.
+* `media_list_language` — for token lists of any length without an EOF token, the verdict of `MediaList(text)` /
+  `MediaList._setMediaText(tokens)` (outer engine run on the list grammar, one nested engine run per query on the
+  same token stream, `savedTokens` and the tokenizer's push-back list between them) is `MQ.listAccepts`: queries
+  separated by commas, each read by `MQ.sQuery` (the same six-state scan, saying where it stops and whether the
+  token it stops at is handed back, lost, or — parsed from a string and followed by more text — comes back).
+  `media_list_comment_dependent`: from a string the verdict depends on a trailing comment.
+-/
+open CssVerif.PP in
+theorem engine_total (hook : Hook) (cfg : Cfg) (g : G) (toks saved : List Tok) (hwf : g.wf = true)
+    (hns : g.noSpin = true) (hr : g.rootOK = true) (hh : HookOK hook) : (parse hook cfg g toks saved).status = .ok :=
+  parse_total hook cfg g toks saved hwf hns hr hh
+
+open CssVerif.PP in
+theorem engine_progress (hook : Hook) (cfg : Cfg) (g : G) (toks saved : List Tok) (hwf : g.wf = true)
+    (hns : g.noSpin = true) (hr : g.rootOK = true) (hh : HookOK hook) :
+    (let r := parse hook cfg g toks saved; r.rest.length + r.saved.length + r.pushed.length ≤ toks.length + saved.length) ∧
+    (g.noSAK = true → (toks ≠ [] ∨ saved ≠ []) →
+      let r := parse hook cfg g toks saved; r.rest.length + r.saved.length + r.pushed.length + 1 ≤ toks.length + saved.length) :=
+  ⟨parse_measure hook cfg g toks saved hwf hns hr hh, fun hs hne => parse_progress hook cfg g toks saved hwf hns hr hh hs hne⟩
+
+open CssVerif.PP in
+theorem media_query_total (colors : List Text) (toks : List Tok) : (MQ.mediaQuery colors toks).status = .ok :=
+  mediaQuery_total colors toks
+
+open CssVerif.PP in
+theorem media_list_total (colors : List Text) (global : Bool) (toks : List Tok) :
+    (MQ.mediaList colors global toks).2.status = .ok := mediaList_total colors global toks
+
+open CssVerif.PP in
+theorem synthetic_total (cfg : Cfg) (toks saved : List Tok) :
+    (parse noHook cfg Synth.s1 toks saved).status = .ok ∧ (parse noHook cfg Synth.s2 toks saved).status = .ok ∧
+    (parse noHook cfg Synth.s3 toks saved).status = .ok :=
+  ⟨s1_total cfg toks saved, s2_total cfg toks saved, s3_total cfg toks saved⟩
+
+open CssVerif.PP in
+/-- the hazard of Appendix A.3 is real where the hypothesis fails: every item optional, no upper bound -/
+theorem spin_is_real : Synth.s4.noSpin = false ∧ (parse noHook {} Synth.s4 [⟨.ident, [98], [98]⟩] []).status = .spin := by
+  decide
+
+open CssVerif.PP CssVerif.PP.MQ in
+theorem media_query_language (colors : List Text) (toks : List Tok) (he : ∀ t ∈ toks, t.kind ≠ .eof) :
+    (mediaQuery colors toks).wf = accepts colors (strip toks) := mediaQuery_correct colors toks he
+
+open CssVerif.PP CssVerif.PP.MQ in
+theorem media_query_documented (colors : List Text) (ts : List Tok) (hd : documented colors ts = true)
+    (hs : ∀ t rest, ts = t :: rest → pLpar.eval t = true → pIdent.eval t = false)
+    (hon : ∀ t rest, ts = t :: rest → pOnlyNot.eval t = true → ∃ u us, rest = u :: us ∧ pKnown.eval u = true) :
+    accepts colors ts = true := documented_accepted colors ts hd hs hon
+
+open CssVerif.PP CssVerif.PP.MQ in
+theorem media_query_beyond_documented (colors : List Text) (ts : List Tok) (ha : accepts colors ts = true)
+    (hs : ∀ t rest, ts = t :: rest → pLpar.eval t = true → pIdent.eval t = false) :
+    documented colors ts = true ∨ knownHead ts = true := accepted_documented colors ts ha hs
+
+open CssVerif.PP CssVerif.PP.MQ in
+theorem media_list_language (colors : List Text) (g : Bool) (toks : List Tok) (he : ∀ t ∈ toks, t.kind ≠ .eof) :
+    (mediaList colors g toks).1 = listAccepts colors g toks := mediaList_correct colors g toks he
+
+open CssVerif.PP CssVerif.PP.MQ in
+/-- `print and ;` is a well-formed list, `print and ; /*c*/` is not (from a string); an unknown media type is accepted
+    only in the last place -/
+theorem media_list_comment_dependent :
+    listAccepts [] true [tPrint, tAndTok, chr 59] = true ∧ listAccepts [] true [tPrint, tAndTok, chr 59, ⟨.comment, [], []⟩] = false ∧
+    listAccepts [] true [tPrint, tCommaTok, tFoo] = true ∧ listAccepts [] true [tFoo, tCommaTok, tPrint] = false := by decide
+
+open CssVerif.PP CssVerif.PP.MQ in
+/-- non-vacuity of the hypotheses, and their necessity:
+    a documented query that is accepted; `not foo` (documented, `hon` fails) is rejected;
+    `only EOF` is well-formed although `only` is not in the language (`he` of `media_query_language`) -/
+example : documented [] [tPrint, tAndTok, chr 40, tWidth, chr 58, tDim, chr 41] = true ∧
+    accepts [] [tPrint, tAndTok, chr 40, tWidth, chr 58, tDim, chr 41] = true ∧
+    documented [] [tNotTok, tFoo] = true ∧ accepts [] [tNotTok, tFoo] = false ∧
+    (mediaQuery [] [ident tOnly, ⟨.eof, [], []⟩]).wf = true ∧ accepts [] (strip [ident tOnly, ⟨.eof, [], []⟩]) = false := by
+  decide
 
 end CssVerif.C02
